@@ -7,7 +7,9 @@
    gate      Model/Gate.v against the real Application with a scripted auth back-end, scripted rights and
              scripted handlers over generated WSGI environ dicts;
    htpasswd  Model/Htpasswd.v (+ login mapping) against the real htpasswd.Auth through BaseAuth.login on
-             generated files edited between attempts, real passlib/bcrypt answering `ext_verify`.
+             generated files edited between attempts, real passlib/bcrypt answering `ext_verify`; login cache off, and
+             on (logical clock: beyond both lifetimes at every file change, so the cache must be invisible -- C17_transparent)
+             with attempts whose login+password concatenations coincide.
 3. monitors = the property stated directly on the implementation, on the same cases: who a handler ran as,
    store diff after every rejected / malformed request, header spoofing, no exception of Radicale's own
    making in a login, htpasswd soundness (a successful login has an entry that verifies) and completeness;
@@ -401,6 +403,16 @@ def corpus(pool):
         out.append(dict(cfg=base, file0=f2, steps=[(f2, "carol", "$2y$abc"), (f2, "carol", "x")]))
         out.append(dict(cfg=dict(base, module=False), file0=f2, steps=[(f2, "carol", "$2y$abc"), (f1, "alice", "pw")]))
         out.append(dict(cfg=dict(base, enc="bcrypt"), file0=f1, steps=[(f1, "alice", "pw"), (f0, "alice", "pw")]))
+    # login cache on ([auth] cache_logins): runs of attempts against ONE file version, among them pairs whose login+password
+    # concatenations coincide ('alice'+'xyz' = 'alic'+'exyz' = 'alicex'+'yz'), accepted pair first and rejected pair first
+    k0 = dict(data=b"alice:xyz\nbo:bby\n", mtime=3000)
+    k1 = dict(data=b"alice:new\nbo:bby\n", mtime=3001)
+    for cache in (False, True):
+        for (lc, sd) in ((False, False), (True, True)):
+            out.append(dict(cfg=dict(enc="plain", cache=cache, lc=lc, uc=False, sd=sd, module=True, cl=True), file0=k0,
+                            steps=[(k0, "alice", "xyz"), (k0, "alic", "exyz"), (k0, "alicex", "yz"), (k0, "alice", "xyz"), (k0, "bob", "by"),
+                                   (k0, "bo", "bby"), (k0, "bob", "by"), (k1, "alice", "xyz"), (k1, "alice", "new"), (k1, "alic", "enew"),
+                                   (k1, "alice", "xyz")]))
     return out
 
 
@@ -419,6 +431,10 @@ def htpasswd_suite(ctx):
             cases.append((case, res))
             cfg = case["cfg"]
             ctx.count("ht:enc:%s" % cfg["enc"])
+            ctx.count("ht:login-cache:%s" % ("on" if H.login_cache_on(cfg) else "off"))
+            pairs = [(py_map_login(cfg, l), pw) for _, l, pw in case["steps"]]
+            if any(a != b and a[0] + a[1] == b[0] + b[1] for k, a in enumerate(pairs) for b in pairs[:k]):
+                ctx.count("ht:equal-concatenation-attempts:login-cache-%s" % ("on" if H.login_cache_on(cfg) else "off"))
             if res is None:
                 ctx.count("ht:startup-refused")
             else:
@@ -429,10 +445,13 @@ def htpasswd_suite(ctx):
                         ctx.count("ht:attempt-with-unreadable-file:" + r[0])
                     if r[0] == "user":
                         ctx.count("ht:success:%s:%s" % (cfg["enc"], "cache" if cfg["cache"] else "nocache"))
+                        if H.login_cache_on(cfg):
+                            ctx.count("ht:success:login-cache-on")
             v = ht_monitor(case, res)
             if v:
                 ctx.count("ht:violation:%s" % (v[1] or "other"))
-                if v[1] is None or v[1] not in reported:          # one replay per signature, the count goes to the distribution
+                # one replay per signature (a handful without one), the count goes to the distribution
+                if (v[1] is None and ctx.distribution["ht:violation:other"] <= 6) or (v[1] is not None and v[1] not in reported):
                     reported.add(v[1])
                     ctx.violation("C05 htpasswd: " + v[0], dict(kind="htpasswd", case=_json_ht(case), observed=res), signature=v[1])
             ctx.case(("ht", json.dumps(_json_ht(case), sort_keys=True)), nontrivial=res is not None and any(r[0] == "user" for r in res) or
@@ -604,6 +623,12 @@ def live_monitor(ctx):
         ({"auth": {"type": "htpasswd", "htpasswd_filename": fn, "htpasswd_encryption": "plain", "cache_logins": "False", "lc_username": "True",
                    "strip_domain": "True"}, "rights": {"type": "owner_only"}},
          lambda l, pw: l.lower().split("@")[0] if (l.lower().split("@")[0], pw) in (("alice", "apw"), ("bob", "bpw")) else ""),
+        # the same two with the login cache on (the file never changes here, so the cache must be invisible)
+        ({"auth": {"type": "htpasswd", "htpasswd_filename": fn, "htpasswd_encryption": "plain", "cache_logins": "True"},
+          "rights": {"type": "owner_only"}}, lambda l, pw: l if (l, pw) in (("alice", "apw"), ("bob", "bpw"), ("Alice@Example.com", "xpw")) else ""),
+        ({"auth": {"type": "htpasswd", "htpasswd_filename": fn, "htpasswd_encryption": "plain", "cache_logins": "True", "lc_username": "True",
+                   "strip_domain": "True"}, "rights": {"type": "owner_only"}},
+         lambda l, pw: l.lower().split("@")[0] if (l.lower().split("@")[0], pw) in (("alice", "apw"), ("bob", "bpw")) else ""),
         ({"auth": {"type": X.PLUGIN, "cache_logins": "False"}, "rights": {"type": "owner_only"}}, None),
         ({"auth": {"type": "none"}, "rights": {"type": "owner_only"}}, lambda l, pw: l),
         ({"auth": {"type": "denyall"}, "rights": {"type": "owner_only"}}, lambda l, pw: ""),
@@ -614,10 +639,19 @@ def live_monitor(ctx):
     try:
         for conf, oracle in confs:
             with impl.Server(conf) as srv:
+                history = []
                 for _ in range(ctx.n(40, 400)):
                     l, pw = rng.choice(logins), rng.choice(pws)
                     if rng.random() < 0.5:
                         l, pw = rng.choice([("alice", "apw"), ("bob", "bpw"), ("Alice@Example.com", "xpw"), ("ALICE", "apw"), ("bob@x", "bpw")])
+                    if history and rng.random() < 0.25:
+                        # the credentials of a recent request cut at another place: same login+password concatenation
+                        cut = H.resplit(rng, *rng.choice(history[-4:]))
+                        # (an empty login is an anonymous request, not a rejected one; a name the storage cannot make a
+                        # principal collection for -- leading '.', trailing '~' -- is dropped by the gate: Model/Gate.v, not this oracle)
+                        if cut and cut[0] and not cut[0].startswith(".") and not cut[0].endswith("~"):
+                            l, pw = cut
+                    history.append((l, pw))
                     if oracle is None:
                         ret = rng.choice([l, "", "zed", "a/b", "..", l.upper()])
                         plug.STATE["script"] = {(l, pw): ret}
@@ -642,7 +676,9 @@ def live_monitor(ctx):
                     rep = dict(kind="live", conf=conf, method=method, path=path, login=l, password=pw, environ=env, status=st)
                     if not want:
                         if st != 401 or "WWW-Authenticate" not in hd:
-                            ctx.violation("C05 live: rejected credentials %r answered %d" % ((l, pw), st), rep)
+                            ctx.count("live:violation:rejected-credentials-answered")
+                            if ctx.distribution["live:violation:rejected-credentials-answered"] <= 4:   # a handful of replays is enough
+                                ctx.violation("C05 live: rejected credentials %r answered %d" % ((l, pw), st), rep)
                         if before != after:
                             ctx.violation("C05 live: store changed by a request with rejected credentials", rep)
                     else:
@@ -764,7 +800,9 @@ def run(ctx):
                 "file versions with an attempt each), distinct by the whole history, non-trivial = more than one attempt or a successful login; "
                 "text: distinct by string; live: distinct by (auth configuration, login, password, method, path)")
     ctx.assumptions += [
-        "login cache (cache_logins) off: the cache is property C17",
+        "login cache (cache_logins): its own behaviour over time is property C17; here it is switched on in 40 % of the htpasswd histories and "
+        "in two live configurations under the clock rule of C17_transparent (the clock moves beyond both lifetimes whenever the htpasswd file "
+        "changes, by 1 s otherwise), where it must be invisible: the cache-less model run_htpasswd and the htpasswd monitors apply unchanged",
         "passlib / bcrypt / base64 / codecs / str.lower / str.upper are external functions: universally quantified in the theorems, "
         "answered by the real libraries in the correspondence (tables handed to the model)",
         "storage and rights back-end enter the gate only through: does /user/ exist, is W granted on it, does create_collection raise ValueError; "
